@@ -94,8 +94,45 @@ def run(sdir, checks):
         shutil.rmtree(d, ignore_errors=True)
 
 
+def matrix(seeds):
+    """Every seeded change x VERIF_SEED values -> seeded/MATRIX.md (detection robustness)."""
+    import glob
+    from concurrent.futures import ThreadPoolExecutor
+    dirs = sorted(glob.glob(os.path.join(VERIF, 'seeded', 'C*-*')))
+
+    def one(args):
+        sdir, seed = args
+        meta = json.load(open(os.path.join(sdir, 'meta.json')))
+        d = tempfile.mkdtemp(prefix='seedmx-')
+        try:
+            shutil.copytree(os.path.join(REPO, 'src'), d + '/src', ignore=shutil.ignore_patterns('__pycache__'))
+            sh(['patch', '-p1', '-s', '-d', d, '-i', os.path.abspath(os.path.join(sdir, 'patch.diff'))])
+            rr = sh([os.path.join(VERIF, 'vcheck'), meta['property'], '--no-evidence', '--seed', str(seed), '--shards', '6'],
+                    env=dict(os.environ, NDN_REPO=d))
+            return os.path.basename(sdir), seed, rr.returncode
+        finally:
+            shutil.rmtree(d, ignore_errors=True)
+    jobs = [(d, s) for d in dirs for s in seeds]
+    res = {}
+    with ThreadPoolExecutor(max_workers=2) as ex:
+        for name, seed, rc in ex.map(one, jobs):
+            res.setdefault(name, {})[seed] = rc
+            print(name, seed, rc, flush=True)
+    lines = ['# Seeded changes x seeds (quick tier): 1 = VIOLATION reported, 0 = missed, 2 = harness error', '',
+             '| change | ' + ' | '.join(f'seed {s}' for s in seeds) + ' |', '|---|' + '---|' * len(seeds)]
+    for name in sorted(res):
+        lines.append(f'| {name} | ' + ' | '.join(str(res[name].get(s, '')) for s in seeds) + ' |')
+    missed = sum(1 for n in res for s in seeds if res[n].get(s) != 1)
+    lines += ['', f'{len(res)} changes x {len(seeds)} seeds = {len(res) * len(seeds)} runs, {missed} not caught.']
+    open(os.path.join(VERIF, 'seeded', 'MATRIX.md'), 'w').write('\n'.join(lines) + '\n')
+    print(lines[-1])
+
+
 if __name__ == '__main__':
     cmd = sys.argv[1]
+    if cmd == 'matrix':
+        matrix([int(x) for x in sys.argv[2:]] or [1, 2, 3])
+        sys.exit(0)
     if cmd == 'verify':
         print(json.dumps(verify(sys.argv[2], sys.argv[3]), indent=1))
     elif cmd == 'adopt':
